@@ -6,6 +6,7 @@ mod c06;
 mod cache;
 mod crash;
 mod dedup;
+mod recon;
 mod sess;
 mod sf;
 mod shard;
@@ -57,6 +58,7 @@ fn main() {
             "cache" => cache::run(&toks[1..]),
             "crash" => crash::run(&toks[1..]),
             "sf" => sf::run(&toks[1..]),
+            "recon" => recon::run(&toks[1..]),
             "sess" => sess::run(&toks[1..]),
             "c07" => xorb::run_c07(&toks[1..]),
             "c07prep" => xorb::prep_c07(&toks[1..]),
